@@ -7,7 +7,8 @@
    raise NotImplementedError in the real code and are not distinguished by the model.
    Satisfiability of the hypotheses: C01/Examples.v. *)
 From Coq Require Import List Bool Arith Lia.
-From QV Require Import Base.Mat C01.Model C01.Spec C01.Lib C01.ProofsSV C01.ProofsCtrl C01.ProofsMat
+From Coq Require Import ZArith.
+From QV Require Import Base.Zi Base.Mat C01.Model C01.Spec C01.Lib C01.ProofsSV C01.ProofsCtrl C01.ProofsMat
   C01.ProofsRun C01.ProofsFused.
 Import ListNotations.
 
@@ -56,3 +57,20 @@ Theorem unitary_is_run : forall (T : Type) (K : ops T), semiring K ->
   mvmul K (unitary K n gs) v = execute K n gs v.
 Proof. exact @unitary_run_eq. Qed.
 Print Assumptions unitary_is_run.
+
+(* Circuits that contain FusedGates (the result of Circuit.fuse).  The full statement
+     forall queue, mvmul (unitary_queue n q) v = execute_queue n q v
+   is FALSE of the faithful model of Circuit.unitary (it skips every SpecialGate, FusedGate included);
+   it holds for queues of elementary gates only. *)
+Theorem unitary_queue_ok_partial : forall (T : Type) (K : ops T), semiring K ->
+  forall n (gs : list gate) (v : vec T), Forall (gate_wf n) gs -> Forall (gate_shape_ok) gs ->
+  length v = 2 ^ n ->
+  mvmul K (unitary_queue K n (map (fun g => QGate g) gs)) v = execute_queue K n (map (fun g => QGate g) gs) v.
+Proof. exact @unitary_queue_elementary. Qed.
+Print Assumptions unitary_queue_ok_partial.
+
+Theorem unitary_queue_refuted :
+  exists n (q : list (qitem (T:=Zi))) (v : vec Zi), length v = 2 ^ n /\
+    mvmul Ziops (unitary_queue Ziops n q) v <> execute_queue Ziops n q v.
+Proof. exact unitary_queue_counterexample. Qed.
+Print Assumptions unitary_queue_refuted.
